@@ -247,8 +247,5 @@ reg(PoolCheck(
 
 def get(cid):
     if cid not in CHECKS:
-        try:
-            from . import checks_more  # noqa: F401  (registers C15.. on import)
-        except ImportError:
-            pass
+        from . import checks_more  # noqa: F401  (registers C16.. on import)
     return CHECKS[cid]
